@@ -1,13 +1,14 @@
 PROPERTY = "C17"
 LEVEL = "proof"
-LEAN_MODULES = ["CifModel.Props.C17"]
+LEAN_MODULES = ["CifModel.Props.C17", "CifModel.Props.C17Store"]
 REQUIRED = ["CifModel.C17_dup_ustrings_balanced", "CifModel.C17_clone_balanced", "CifModel.C17_insert_balanced",
             "CifModel.C17_fault_reached_iff", "CifModel.C17_set_element_balanced", "CifModel.C17_get_names_balanced",
             "CifModel.C17_cex_get_names_leak", "CifModel.C17_clone_shape", "CifModel.C17_balanced_nodup",
             "CifModel.C17_copy_char_balanced", "CifModel.C17_packet_create_balanced",
-            "CifModel.C17_cex_packet_create_undefined", "CifModel.C17_deserialize_balanced"]
-GEN = []
-FAMILIES = ["ladder", "oom"]
+            "CifModel.C17_cex_packet_create_undefined", "CifModel.C17_deserialize_balanced",
+            "CifModel.C17_atomic_under_fault", "CifModel.C17_abs_unchanged", "CifModel.C17_close_fault_is_abort"]
+GEN = ["ErrCodes", "Schema"]
+FAMILIES = ["ladder", "oom", "storefault"]
 TRUSTED_BASE = [
     "Lean 4.33.0 kernel; axioms propext / Quot.sound / Classical.choice only",
     "Model/Ladder.lean: hand transcription of the allocation/clean-up control flow of dup_ustrings, cif_value_clone (scalar, "
@@ -17,14 +18,22 @@ TRUSTED_BASE = [
     "harness/alloc.h (--wrap of malloc/calloc/realloc/strdup/free in the executor, SQLite allocator via "
     "SQLITE_CONFIG_MALLOC, ICU allocator via u_setMemoryFunctions), harness/x_oom.c scenarios, tools/gen/oom.py oracle",
     "gcc ASan/UBSan as the detector of memory errors in the real code",
+    "Model/StoreFault.lean: the documented failure paths of the store functions (failure before the transaction statement returns at once; a failure inside runs the "
+    "function's ROLLBACK / ROLLBACK_NESTTX / ROLLBACK_TO); per-function macro uses tied to the sources by C05_paths_link; "
+    "harness/x_storefault.c + tools/gen/storefault.py (API histories with 1-4 faulted calls, each repeated)",
 ]
 ASSUMPTIONS = [
+    "SQLite undoes a failing statement (statement-level atomicity) and ROLLBACK / ROLLBACK TO succeed after an allocation failure "
+    "(C17_atomic_under_fault; the real SQLite deviates inside iterator transactions - open findings F31s-*)",
     "one allocation failure per call; allocations made inside libc/ICU/SQLite on their own behalf are failed only through "
     "their allocator hooks (classes sq, icu), not individually wrapped",
     "the runtime part of C17 (crash-freedom, unchanged managed CIF, successful retry at every allocation site of ~65 API "
     "operations) is observed by exhaustive fault enumeration on fixed representative scenarios, not proved",
 ]
 PARTIAL = [
+    "store functions: C17_atomic_under_fault (every world with the invariant, every modelled operation, every fault position: error code, handle "
+    "tables untouched, every CIF unchanged, the repeated call gives the fault-free result) covers the documented rollback paths; cif_create, "
+    "cif_destroy, cif_pktitr_abort are not covered by stepFault",
     "theorems cover the clean-up ladders of dup_ustrings / cif_value_clone (without tables) / cif_value_insert_element_at / "
     "cif_value_set_element_at / cif_loop_get_names (normalize = 0) for "
     "every size, nesting and fault position; every other allocation site is covered by the fault-enumeration run only",
@@ -41,4 +50,4 @@ LEVEL_TEXT = ("Partial proof + exhaustive fault enumeration. Lean theorems: for 
 LEVEL_NOTE = ("The theorem is about the ladder model; memory safety of the C itself is observed at run time only. "
               "Known genuine defects are listed individually (keyed by operation / allocator class / failing allocation's "
               "function / consequence) so that any new failure is still reported.")
-TECHNIQUE = "Lean 4 induction over value shapes and fault positions (clean-up ladder model) + exhaustive single-fault injection"
+TECHNIQUE = "Lean 4 induction over value shapes and fault positions (clean-up ladder model), Lean 4 proof on a transactional store model with fault steps + exhaustive single-fault injection and fault-injected API histories"
